@@ -14,3 +14,4 @@ ASSUMPTIONS = [
 ]
 
 from vt.contracts import iface_config  # noqa: F401,E402
+from vt.contracts import particle_ground  # noqa: F401,E402  (config_loader.DecayConfig/ls_cut_shared_decays: exhaustive over its stated family)
